@@ -254,6 +254,12 @@ def profile_cli18(rnd, n, thorough, out):
             impl = "error" if (r.exit != 0 and not traffic) else ("ok" if r.exit == 0 else f"exit{r.exit}-traffic")
             out.add(f"partcfg {c if c is not None else '-'} {i if i is not None else '-'}", impl,
                     f"cli18 set={si} cfg count={c} id={i}")
+        # a count given through SLT_PARTITION_COUNT alone stays a count without an id, whatever the CI
+        # system's own variables say (they are consulted only when neither SLT variable is set)
+        r = run_cli(cwd, list(patterns), {"SLT_PARTITION_COUNT": "2", "BUILDKITE_PARALLEL_JOB_COUNT": "2", "BUILDKITE_PARALLEL_JOB": "0"})
+        traffic = len(r.events) > 0
+        impl = "error" if (r.exit != 0 and not traffic) else ("ok" if r.exit == 0 else f"exit{r.exit}-traffic")
+        out.add("partcfg 2 -", impl, f"cli18 set={si} cfg SLT count only + Buildkite variables")
         shutil.rmtree(cwd, ignore_errors=True)
 
 
@@ -590,6 +596,7 @@ UPD_RECORDS = [
 
 # records whose SQL changes under `control substitution on` (escapes only: no variables)
 SUBST_RECORDS = [
+    ("statement ok", "ins db $__DATABASE__ {n}", ""),
     ("statement ok", "ins back\\\\slash {n}", ""),
     ("query T", "select a\\\\b {n}", "----\na\\\\b {n}\n"),
 ]
@@ -806,7 +813,7 @@ def multi_case(mode, tree, roots, sqls, labels=()):
         if q not in uniq:
             uniq.append(q)
             # the text the engine sees when `control substitution on` is in force (escapes only)
-            q2 = q.replace("\\\\", "\\")
+            q2 = q.replace("\\\\", "\\").replace("$__DATABASE__", "postgres")
             if q2 != q:
                 uniq.append(q2)
     # regex tables (the overridden tree holds inline patterns written by the updater: escaped literal
